@@ -29,6 +29,11 @@ const CLASS_STALE: &str = "c16-words-case-only-reimport-stale";
 /// candidate finding: the ignore context hashes the neighbouring words' dictionary metadata
 const CLASS_IGNORE_DICT: &str = "c16-ignored-lint-returns-after-import-words";
 
+/// recorded finding (w25): two custom words that tie as suggestions for a misspelling come out in the
+/// iteration order of the user dictionary's `hashbrown::HashMap`, which differs from one linter object
+/// to the next (and after a rehash)
+const CLASS_TIE: &str = "c16-user-words-tie-suggestion-order-per-linter";
+
 const DIALECTS: [&str; 4] = ["American", "British", "Australian", "Canadian"];
 
 fn wdialect(d: &str) -> WDialect {
@@ -1160,11 +1165,631 @@ fn words_oracle(sess: &mut Session, rng: &mut Rng) {
     }
 }
 
+// ---------------------------------------------------------------------------------------------
+// w25: input families the quantifier names and the generators above do not write (Markdown with
+// real markup, non-ASCII in front of the lints, CRLF / lone CR, empty and whitespace-only texts,
+// long documents, the same construct several times, lints at offsets 0..3 followed by the same
+// text shifted, dialect spellings, hostile custom words, whole-config switches, long-lived
+// linters), and the public entry points no stream called (is_likely_english, isolate_english,
+// import_stats_file, get_dialect, lint_kind_pretty, to_title_case; the original Lint / Suggestion
+// objects instead of their JSON copies)
+// ---------------------------------------------------------------------------------------------
+
+const W25_ERR: &[&str] = &[
+    "There is an problm in this text.",
+    "I saw a elephant and an zqxv.",
+    "This is the the test of an harness.",
+    "A problm is here.",
+    "We bought an blorft for teh house.",
+    "Their is a mistaek in in this sentence.",
+    "an zqxv is an problm.",
+];
+const W25_PREFIX: &[&str] = &["😀 ", "👨\u{200d}👩\u{200d}👧 ", "e\u{301}e\u{301} ", "ＡＢＣ ", "中文。", "ß İ ﬁ ", "\u{200b}", "\u{feff}", "“” — ", "𝒜𝒷 ", "한국어 ", "٣ ½ "];
+/// lints at character offsets 0, 1, 2, 3 (the context's before-window starts to exist at offset 2)
+const W25_SMALL_OFFSET: &[&str] = &["problm is here.", " problm is here.", "A problm is here.", "I zqxv it.", "My problm is here.", "an problm", "a apple", "I a apple saw.", "Is an problm here?", "\nA problm."];
+const W25_SHIFT_PRE: &[&str] = &["Hello there. ", "This is fine.\n\n", "😀 ", "Yes, ", "A", "\n"];
+const W25_SHIFT_SUF: &[&str] = &[" Thanks.", "\n\nAnother paragraph is here.", " ", "!", "\r\n"];
+/// custom words: apostrophes, non-ASCII, a space inside, digits, case variants of one another and of
+/// curated words. No two of them (with different `WordId`s) are within edit distance 4 of a common
+/// misspelling of the texts: two user words that tie as suggestions are the recorded finding
+/// `CLASS_TIE` (their order differs from one linter object to the next) and have their own stream.
+const W25_WORDS: &[&str] = &[
+    "O'Neil", "naïveté", "Straße", "İstanbul", "ﬁxup", "ice cream", "qwertz2", "GitHub", "github", "GITHUB", "colour", "Colour", "zqxv", "Zqxv", "ZQXV",
+    "中文字幕", "e\u{301}tude", "problm", "PROBLM", "Problm", "supercalifragilistic-expialidocious",
+];
+
+fn w25_err(rng: &mut Rng, sents: &[String]) -> String {
+    if rng.chance(2, 3) { rng.pick(W25_ERR).to_string() } else { rng.pick(sents).clone() }
+}
+
+fn w25_long_word(rng: &mut Rng) -> String {
+    let n = rng.range(60, 400);
+    (0..n).map(|_| (b'a' + rng.below(26) as u8) as char).collect()
+}
+
+/// one Markdown document with real markup around sentences that carry lints
+fn w25_markdown(rng: &mut Rng, sents: &[String]) -> String {
+    let mut out = String::new();
+    let blocks = rng.range(1, 4);
+    for _ in 0..blocks {
+        let a = w25_err(rng, sents);
+        let b = w25_err(rng, sents);
+        let block = match rng.below(18) {
+            0 => format!("# {}\n\n", a),
+            1 => format!("- {}\n- {}\n  - {}\n\n", a, b, a),
+            2 => format!("1. {}\n2. {}\n\n", a, b),
+            3 => format!("> {}\n> {}\n\n", a, b),
+            4 => format!("*{}* **{}** `code problm` [{}](http://example.com/x_y) _{}_\n\n", a, b, a, b),
+            5 => format!("{}\n\n```rust\nlet problm = 1; // an problm\n```\n\n{}\n\n", a, b),
+            6 => format!("| a | b |\n|---|---|\n| {} | problm |\n| an apple | {} |\n\n", a, b),
+            7 => format!("<b>{}</b><i>{}</i>\n\n", a, b),
+            8 => format!("{}  \n{}\\\n{}\n\n", a, b, a),
+            9 => format!("![an image of a elephant](x.png) {}\n\n", a),
+            10 => format!("Term[^1] {}\n\n[^1]: {}\n\n", a, b),
+            11 => format!("* [ ] {}\n* [x] {}\n\n", a, b),
+            12 => format!("{}\n=====\n\n{}\n-----\n\n", a, b),
+            13 => format!("&amp; {} &copy; an&nbsp;problm\n\n", a),
+            14 => format!("~~{}~~<http://example.com>***{}***\n\n", a, b),
+            // single flagged words inside markup: the Markdown tokens next to them are not the plain-text tokens
+            15 | 16 => format!("There is an **problm** here, a *elephant* too, [teh](http://a.b/c) link and <b>zqxv</b> with `code`mistaek. {}\n\n", a),
+            _ => format!("    indented an problm\n\n{}\n\n---\n\n{}\n\n", a, b),
+        };
+        out.push_str(&block);
+    }
+    out
+}
+
+const W25_FAMILIES: usize = 10;
+
+/// (text, markdown?, family)
+pub(crate) fn w25_text(rng: &mut Rng, sents: &[String], fam: usize) -> (String, bool, &'static str) {
+    match fam % W25_FAMILIES {
+        0 => (w25_markdown(rng, sents), true, "md-markup"),
+        1 => (w25_markdown(rng, sents), false, "md-markup-as-plain"),
+        2 => {
+            // non-ASCII (astral, ZWJ, combining, fullwidth, CJK, ligatures) in front of and between the lints
+            let mut t = String::new();
+            for _ in 0..rng.range(1, 3) {
+                t.push_str(*rng.pick(W25_PREFIX));
+            }
+            t.push_str(&w25_err(rng, sents));
+            t.push(' ');
+            t.push_str(*rng.pick(W25_PREFIX));
+            t.push_str(&w25_err(rng, sents));
+            (t, rng.chance(1, 3), "nonascii")
+        }
+        3 => {
+            let sep = *rng.pick(&["\r\n", "\r", "\r\n\r\n", "\n\r", " \r\n "]);
+            let n = rng.range(2, 4);
+            let t = (0..n).map(|_| w25_err(rng, sents)).collect::<Vec<_>>().join(sep);
+            (t, rng.chance(1, 2), "crlf")
+        }
+        4 => (rng.pick(&["", " ", "\n", "\n\n", "\t", "\r\n", "   \n  ", "\u{a0}", ".", "#", "- ", "> ", "``", "😀"]).to_string(), rng.chance(1, 2), "empty-or-blank"),
+        5 => {
+            // long: many sentences, a very long word, a sentence of more than 40 words
+            let n = rng.range(8, 14);
+            let mut t = (0..n).map(|_| w25_err(rng, sents)).collect::<Vec<_>>().join(if rng.chance(1, 2) { " " } else { "\n\n" });
+            t.push_str(" The ");
+            t.push_str(&w25_long_word(rng));
+            t.push_str(" is an problm and ");
+            t.push_str(&vec!["the big word"; 20].join(" "));
+            t.push_str(" ends a elephant here.");
+            (t, rng.chance(1, 3), "long")
+        }
+        6 => {
+            let s = w25_err(rng, sents);
+            let n = rng.range(3, 5);
+            (vec![s; n].join(*rng.pick(&[" ", "\n", "\n\n"])), rng.chance(1, 3), "repeated-construct")
+        }
+        7 => (rng.pick(W25_SMALL_OFFSET).to_string(), rng.chance(1, 4), "small-offset"),
+        8 => (
+            rng.pick(&[
+                "The colour of my neighbour's centre is grey, but the color of the neighbor's center is gray.",
+                "We realise that an problm was organised; they realize it was organized.",
+                "I travelled to the theatre, and an zqxv traveled to the theater.",
+            ])
+            .to_string(),
+            rng.chance(1, 3),
+            "dialect-spellings",
+        ),
+        _ => {
+            // the user's own (hostile) words next to lints
+            let (a, b) = (rng.pick(W25_WORDS), rng.pick(W25_WORDS));
+            (format!("The {} is here and an {} too. I saw a elephant with {}.", a, b, a), rng.chance(1, 3), "user-words-in-text")
+        }
+    }
+}
+
+fn w25_all_rules() -> Vec<String> {
+    let m: BTreeMap<String, Option<bool>> = serde_json::from_str(&harper_wasm::get_default_lint_config_as_json()).unwrap_or_default();
+    m.into_iter().map(|(k, _)| k).collect()
+}
+
+fn w25_words(rng: &mut Rng) -> Vec<String> {
+    let k = rng.range(1, 4);
+    let mut ws: Vec<String> = (0..k).map(|_| rng.pick(W25_WORDS).to_string()).collect();
+    if rng.chance(1, 6) {
+        ws.push(w25_long_word(rng));
+    }
+    if rng.chance(1, 5) {
+        // the same word twice in one call
+        let w = ws[0].clone();
+        ws.push(w);
+    }
+    ws
+}
+
+/// the templates: every returned lint ignored in turn with export → clear → import; the same text
+/// shifted by a prefix / suffix after an ignore; hostile custom words; whole-config switches
+fn w25_templates(rng: &mut Rng, sents: &[String], rules: &[String], fam: usize) -> Vec<Call> {
+    let (t, md, _) = w25_text(rng, sents, fam);
+    let lint = |t: &str| Call::Lint { text: t.to_string(), md };
+    let ign = |from: usize, l: usize| Call::Ignore { from, lint: l, text: None };
+    match rng.below(4) {
+        0 => vec![
+            lint(&t), ign(0, 0), lint(&t), Call::Apply { from: 0, lint: 0, sugg: 0, text: None }, ign(0, 1), lint(&t), ign(0, 2), ign(0, 3), lint(&t), ign(0, 4), ign(0, 5), lint(&t),
+            Call::ExportIgnored, Call::ClearIgnored, lint(&t), Call::ImportIgnored { k: 0 }, lint(&t), Call::Apply { from: 2, lint: 1, sugg: 1, text: None },
+            Call::Apply { from: 0, lint: 2, sugg: 2, text: None }, Call::Stats,
+        ],
+        1 => {
+            let pre = *rng.pick(W25_SHIFT_PRE);
+            let suf = *rng.pick(W25_SHIFT_SUF);
+            let i = rng.below(4);
+            vec![
+                lint(&t), ign(0, i), lint(&format!("{}{}", pre, t)), lint(&format!("{}{}", t, suf)), lint(&format!("{}{}{}", pre, t, suf)), Call::ExportIgnored, Call::ClearIgnored,
+                Call::ImportIgnored { k: 0 }, lint(&format!("{}{}", pre, t)), lint(&t),
+            ]
+        }
+        2 => {
+            let ws1 = w25_words(rng);
+            let ws2 = w25_words(rng);
+            let t2 = format!("The {} is here and an {} too. {}", ws1[0], ws2[0], t);
+            vec![Call::ImportWords(ws1), Call::ExportWords, lint(&t2), ign(2, rng.below(4)), lint(&t2), Call::ImportWords(ws2), Call::ExportWords, lint(&t2), lint(&t)]
+        }
+        _ => {
+            let all = |v: Option<bool>| Call::SetConfig(rules.iter().map(|r| (r.clone(), v)).collect());
+            let some: Vec<(String, Option<bool>)> = rules.iter().map(|r| (r.clone(), if rng.chance(1, 2) { Some(rng.chance(1, 2)) } else { None })).collect();
+            vec![
+                all(Some(true)), lint(&t), ign(1, rng.below(6)), ign(1, rng.below(6)), lint(&t), Call::GetConfig, all(Some(false)), lint(&t), all(None), lint(&t), Call::SetConfig(some), lint(&t),
+                Call::GetConfig, Call::ImportWords(vec!["problm".into()]), lint(&t), Call::GetConfig,
+            ]
+        }
+    }
+}
+
+/// a random sequence of `n` calls over the w25 text families (as `gen_seq`, with hostile words and longer lives)
+fn w25_gen_seq(rng: &mut Rng, sents: &[String], rules: &[String], n: usize) -> Vec<Call> {
+    let mut calls: Vec<Call> = vec![];
+    let mut lint_calls: Vec<usize> = vec![];
+    let mut texts: Vec<(String, bool)> = vec![];
+    let mut n_exports = 0;
+    let fam = rng.below(W25_FAMILIES);
+    let (t0, md0, _) = w25_text(rng, sents, fam);
+    texts.push((t0, md0));
+    for i in 0..n {
+        let c = if lint_calls.is_empty() || i == n - 1 {
+            let (t, md) = rng.pick(&texts).clone();
+            Call::Lint { text: t, md }
+        } else {
+            match rng.below(20) {
+                0..=4 => {
+                    let (t, md) = match rng.below(6) {
+                        0 | 1 => rng.pick(&texts).clone(),
+                        2 => {
+                            // an earlier text shifted
+                            let (t, md) = rng.pick(&texts).clone();
+                            let t = if rng.chance(1, 2) { format!("{}{}", rng.pick(W25_SHIFT_PRE), t) } else { format!("{}{}", t, rng.pick(W25_SHIFT_SUF)) };
+                            texts.push((t.clone(), md));
+                            (t, md)
+                        }
+                        _ => {
+                            let f = rng.below(W25_FAMILIES);
+                            let (t, md, _) = w25_text(rng, sents, f);
+                            texts.push((t.clone(), md));
+                            (t, md)
+                        }
+                    };
+                    let md = if rng.chance(1, 8) { !md } else { md };
+                    Call::Lint { text: t, md }
+                }
+                5..=8 => Call::Ignore { from: *rng.pick(&lint_calls), lint: rng.below(8), text: None },
+                9..=10 => Call::Apply { from: *rng.pick(&lint_calls), lint: rng.below(8), sugg: rng.below(4), text: None },
+                11 => {
+                    n_exports += 1;
+                    Call::ExportIgnored
+                }
+                12 => {
+                    if n_exports > 0 {
+                        Call::ImportIgnored { k: rng.below(n_exports) }
+                    } else {
+                        n_exports += 1;
+                        Call::ExportIgnored
+                    }
+                }
+                13 => Call::ClearIgnored,
+                14..=15 => Call::ImportWords(w25_words(rng)),
+                16 => Call::ExportWords,
+                17 => match rng.below(4) {
+                    0 => Call::SetConfig(rules.iter().map(|r| (r.clone(), Some(true))).collect()),
+                    1 => Call::SetConfig(rules.iter().map(|r| (r.clone(), Some(false))).collect()),
+                    2 => Call::SetConfig(rules.iter().map(|r| (r.clone(), None)).collect()),
+                    _ => Call::SetConfig((0..rng.range(1, 6)).map(|_| (rng.pick(rules).clone(), if rng.chance(1, 4) { None } else { Some(rng.chance(1, 2)) })).collect()),
+                },
+                18 => Call::GetConfig,
+                _ => Call::Stats,
+            }
+        };
+        if let Call::Lint { .. } = c {
+            lint_calls.push(calls.len());
+        }
+        calls.push(c);
+    }
+    calls
+}
+
+/// O only, on ONE text: the original `Lint` / `Suggestion` objects (every other stream passes their
+/// JSON copies) and the entry points that take no part in linting.
+///  * every suggestion of every returned lint, applied: the text with only that span edited; the
+///    JSON copy of (lint, suggestion) applied gives the same text
+///  * `ignore_lint` with the original object and with its JSON copy store the same entry; the lint
+///    is gone afterwards and every lint that differs from it in kind, message, suggestions or
+///    flagged text is still there
+///  * a second linter on which `is_likely_english`, `isolate_english`, `get_dialect`,
+///    `get_lint_descriptions_as_json`, `import_stats_file(generate_stats_file())` and
+///    `to_title_case` are called around every step returns the same lints
+fn w25_direct(sess: &mut Session, dialect: &str, text: &str, md: bool, fam: &str) {
+    let input = json!({"w25": "direct", "dialect": dialect, "text": text, "md": md, "calls": [{"op": "lint", "text": text, "md": md}]});
+    let cs: Vec<char> = text.chars().collect();
+    let mut a = WLinter::new(wdialect(dialect));
+    let Ok(first) = guarded(|| a.lint(text.to_string(), lang(md))) else {
+        sess.count("w25:direct:lint-panic");
+        return;
+    };
+    sess.count(&format!("w25:direct:{}", fam));
+    let mut out = Outcome::default();
+    check_returned(&mut out, text, md, &first);
+    for _ in 0..out.o_cases {
+        sess.o();
+    }
+    if !out.fails.is_empty() {
+        for (class, desc) in out.fails {
+            sess.fail(&class, desc, input.clone(), None);
+        }
+        return;
+    }
+    let show = |v: &[WLint]| v.iter().map(|l| format!("{}..{} {:?}", l.span().start, l.span().end, l.message())).collect::<Vec<_>>();
+    let same_w = |x: &WLint, y: &WLint| x.to_json() == y.to_json();
+    // (1) apply, original objects and JSON copies
+    for (i, l) in first.iter().enumerate() {
+        let sp = l.span();
+        sess.monitor("w25: lint_kind_pretty() is not empty", !l.lint_kind_pretty().is_empty());
+        for (j, s) in l.suggestions().iter().enumerate() {
+            let want: String = splice(&cs, sp.start, sp.end, &sugg_of(s)).into_iter().collect();
+            let direct = guarded(|| a.apply_suggestion(text.to_string(), l, s));
+            sess.o();
+            match &direct {
+                Ok(Ok(t)) if *t == want => {}
+                other => {
+                    sess.fail("apply-not-local", format!("apply_suggestion(lint {} = {}..{}, suggestion {} = {:?}) = {:?}, the splice is {:?}", i, sp.start, sp.end, j, sugg_of(s), other.as_ref().map(|r| r.as_ref().map(|t| trunc(t, 80))), trunc(&want, 80)), input.clone(), None);
+                    return;
+                }
+            }
+            let copy = guarded(|| {
+                let l2 = WLint::from_json(l.to_json())?;
+                let s2 = WSuggestion::from_json(s.to_json())?;
+                a.apply_suggestion(text.to_string(), &l2, &s2)
+            });
+            if copy != direct {
+                sess.fail("json-copy-behaves-differently", format!("apply_suggestion with the JSON copies of lint {} / suggestion {} = {:?}, with the originals {:?}", i, j, copy, direct), input.clone(), None);
+                return;
+            }
+            sess.count("w25:direct:applied");
+        }
+    }
+    // (2) ignore, original object and JSON copy
+    for i in 0..first.len().min(4) {
+        let Ok(again) = guarded(|| a.lint(text.to_string(), lang(md))) else { return };
+        if again.len() != first.len() || !again.iter().zip(first.iter()).all(|(x, y)| same_w(x, y)) {
+            sess.fail("lint-not-repeatable", format!("lint() on the same text after clear_ignored_lints(): {:?}, at first {:?}", show(&again), show(&first)), input.clone(), None);
+            return;
+        }
+        let Ok(copy) = WLint::from_json(again[i].to_json()) else { return };
+        let target = again.into_iter().nth(i).unwrap();
+        if guarded(|| a.ignore_lint(text.to_string(), copy)).is_err() {
+            sess.fail("panic", "ignore_lint panicked on a lint lint() returned for this text".into(), input.clone(), None);
+            return;
+        }
+        let h_copy = hashes_of_export(&a.export_ignored_lints());
+        a.clear_ignored_lints();
+        if guarded(|| a.ignore_lint(text.to_string(), target)).is_err() {
+            sess.fail("panic", "ignore_lint panicked on a lint lint() returned for this text".into(), input.clone(), None);
+            return;
+        }
+        let h_direct = hashes_of_export(&a.export_ignored_lints());
+        sess.o();
+        if h_copy != h_direct || h_direct.len() != 1 {
+            sess.fail("json-copy-behaves-differently", format!("ignore_lint with lint {} stores {:?}, with its JSON copy {:?}", i, h_direct, h_copy), input.clone(), None);
+            return;
+        }
+        let Ok(second) = guarded(|| a.lint(text.to_string(), lang(md))) else { return };
+        let t = &first[i];
+        let differs = |x: &WLint| x.lint_kind() != t.lint_kind() || x.message() != t.message() || x.get_problem_text() != t.get_problem_text() || serde_json::from_str::<Value>(&x.to_json()).ok().map(|v| v["inner"]["suggestions"].clone()) != serde_json::from_str::<Value>(&t.to_json()).ok().map(|v| v["inner"]["suggestions"].clone());
+        let gone = !second.iter().any(|x| same_w(x, t));
+        let others_stay = first.iter().filter(|x| differs(x)).all(|x| second.iter().any(|y| same_w(x, y)));
+        let nothing_new = second.iter().all(|y| first.iter().any(|x| same_w(x, y)));
+        sess.o();
+        if !(gone && others_stay && nothing_new) {
+            sess.fail("ignore-not-exact", format!("ignore_lint(lint {}): lint() went from {:?} to {:?}", i, show(&first), show(&second)), input.clone(), None);
+            return;
+        }
+        if second.len() + 1 == first.len() && !second.is_empty() {
+            sess.nontrivial(&format!("w25d|{}|{}|{}", text, md, i));
+        }
+        a.clear_ignored_lints();
+    }
+    // (3) the entry points that take no part in linting, around every step on a second linter
+    let mut b = WLinter::new(wdialect(dialect));
+    let neutral = |b: &mut WLinter| {
+        guarded(|| {
+            let _ = b.is_likely_english(text.to_string());
+            let _ = b.isolate_english(text.to_string());
+            let _ = b.get_lint_descriptions_as_json();
+            let _ = harper_wasm::to_title_case(text.to_string());
+            let f = b.generate_stats_file();
+            let r = b.import_stats_file(f);
+            (b.get_dialect() as u8, r.is_ok())
+        })
+    };
+    let n0 = neutral(&mut b);
+    sess.monitor("w25: get_dialect() is the dialect of new()", n0.as_ref().map(|x| x.0).ok() == Some(wdialect(dialect) as u8) || n0.is_err());
+    sess.monitor("w25: import_stats_file accepts generate_stats_file()", n0.as_ref().map(|x| x.1).unwrap_or(true));
+    if n0.is_err() {
+        sess.count("w25:direct:neutral-call-panics");
+    }
+    let Ok(bl) = guarded(|| b.lint(text.to_string(), lang(md))) else { return };
+    let _ = neutral(&mut b);
+    sess.o();
+    if bl.len() != first.len() || !bl.iter().zip(first.iter()).all(|(x, y)| same_w(x, y)) {
+        sess.fail("neutral-calls-change-lints", format!("after is_likely_english / isolate_english / get_lint_descriptions_as_json / import_stats_file / get_dialect: lint() = {:?}, without them {:?}", show(&bl), show(&first)), input.clone(), None);
+        return;
+    }
+    if let Some(l0) = first.first() {
+        let (Ok(ca), Ok(cb)) = (WLint::from_json(l0.to_json()), WLint::from_json(l0.to_json())) else { return };
+        let r = guarded(|| {
+            a.ignore_lint(text.to_string(), ca);
+            b.ignore_lint(text.to_string(), cb);
+        });
+        let _ = neutral(&mut b);
+        if r.is_err() {
+            return;
+        }
+        let (Ok(ra), Ok(rb)) = (guarded(|| a.lint(text.to_string(), lang(md))), guarded(|| b.lint(text.to_string(), lang(md)))) else { return };
+        sess.o();
+        if ra.len() != rb.len() || !ra.iter().zip(rb.iter()).all(|(x, y)| same_w(x, y)) || hashes_of_export(&a.export_ignored_lints()) != hashes_of_export(&b.export_ignored_lints()) {
+            sess.fail("neutral-calls-change-lints", format!("after an ignore, with the neutral calls around it: lint() = {:?}, without them {:?}", show(&rb), show(&ra)), input, None);
+        }
+    }
+}
+
+/// O only, the witness of `CLASS_TIE`: the same calls on several linter objects. `export_words()` of the
+/// first imported into a fresh linter is exactly what every further object is, so by the export → import
+/// clause all of them must return the same lints; and an ignore list exported from the first must hide
+/// the same lint on the others.
+fn w25_tie_order(sess: &mut Session, n: usize) {
+    let words: Vec<String> = vec!["2zqxv".into(), "Zqxv".into()];
+    let text = "We saw zqxv here.";
+    let input = json!({"w25": "tie", "dialect": "American", "calls": [{"op": "import_words", "words": words}, {"op": "lint", "text": text, "md": false}]});
+    let mk = |ws: Vec<String>| {
+        let mut l = WLinter::new(WDialect::American);
+        l.import_words(ws);
+        l
+    };
+    let mut first = mk(words.clone());
+    let Ok(base) = guarded(|| first.lint(text.to_string(), Language::Plain)) else { return };
+    let base: Vec<Returned> = base.into_iter().filter_map(wrap).collect();
+    let Some(target) = base.iter().position(|r| r.core.lint_kind.is_spelling() && r.problem_text == "zqxv") else {
+        sess.count("w25:tie:witness-lint-missing");
+        return;
+    };
+    let Ok(tl) = WLint::from_json(base[target].json.clone()) else { return };
+    first.ignore_lint(text.to_string(), tl);
+    let exported_ignores = first.export_ignored_lints();
+    let exported_words = first.export_words();
+    let mut differing = 0;
+    let mut ignored_returns = 0;
+    let mut other = None;
+    for _ in 0..n {
+        let mut l = mk(exported_words.clone());
+        let Ok(r) = guarded(|| l.lint(text.to_string(), Language::Plain)) else { return };
+        let r: Vec<Returned> = r.into_iter().filter_map(wrap).collect();
+        sess.o();
+        let same = r.len() == base.len() && r.iter().zip(base.iter()).all(|(x, y)| same_lint(&x.core, &y.core));
+        if same {
+            continue;
+        }
+        // narrow matcher: the results differ ONLY in the order of the suggestions of the spelling lint, and the
+        // suggestions that changed places are words the sequence imported
+        let only_order = r.len() == base.len()
+            && r.iter().zip(base.iter()).enumerate().all(|(i, (x, y))| {
+                if same_lint(&x.core, &y.core) {
+                    return true;
+                }
+                let (mut a, mut b) = (x.core.suggestions.clone(), y.core.suggestions.clone());
+                let moved: Vec<String> = a.iter().zip(b.iter()).filter(|(p, q)| p != q).map(|(p, _)| match p {
+                    Suggestion::ReplaceWith(cs) => cs.iter().collect(),
+                    _ => String::new(),
+                }).collect();
+                a.sort_by_key(|s| format!("{:?}", s));
+                b.sort_by_key(|s| format!("{:?}", s));
+                i == target && a == b && x.core.span == y.core.span && x.core.message == y.core.message && x.core.lint_kind == y.core.lint_kind && x.core.priority == y.core.priority && moved.iter().all(|w| exported_words.contains(w))
+            });
+        if !only_order {
+            sess.fail("export-import-differs", format!("a fresh linter with the exported words returns {:?}, the first {:?}", r.iter().map(|x| &x.core).collect::<Vec<_>>(), base.iter().map(|x| &x.core).collect::<Vec<_>>()), input.clone(), None);
+            return;
+        }
+        differing += 1;
+        other = Some(format!("{:?}", r[target].core.suggestions));
+        // the consequence for the ignore list
+        if l.import_ignored_lints(exported_ignores.clone()).is_ok() {
+            if let Ok(r2) = guarded(|| l.lint(text.to_string(), Language::Plain)) {
+                if r2.iter().any(|x| x.lint_kind() == "Spelling" && x.get_problem_text() == "zqxv") {
+                    ignored_returns += 1;
+                }
+            }
+        }
+    }
+    sess.add("w25:tie:linters", n as u64);
+    sess.add("w25:tie:linters-with-other-order", differing);
+    sess.add("w25:tie:ignored-lint-reported-there", ignored_returns);
+    if differing > 0 {
+        sess.fail(
+            CLASS_TIE,
+            format!(
+                "import_words({:?}); lint({:?}): the spelling lint on `zqxv` suggests {:?} on one linter object and {} on {} of {} further objects that imported the first one's export_words() (same process, same calls); the ignore list exported after ignoring that lint on the first object left it reported on {} of them",
+                words, text, base[target].core.suggestions, other.unwrap_or_default(), differing, n, ignored_returns
+            ),
+            input,
+            None,
+        );
+    }
+}
+
+/// O only: one odd custom word at a time (never two: see `CLASS_TIE`) — it is exported, lint results stay
+/// well-formed, and a fresh linter that imports the export returns the same lints
+fn w25_odd_words(sess: &mut Session) {
+    let texts = ["The  is here. I saw a elephant.", "an problm, a b and 😀 are 'here'.", ""];
+    for (i, w) in ["", " ", "a b", "\n", "😀", "'", "’", "x", "é", "-", "1", "e\u{301}", "O’Neil"].iter().enumerate() {
+        let d = DIALECTS[i % 4];
+        let input = |t: &str| json!({"w25": "odd-word", "dialect": d, "calls": [{"op": "import_words", "words": [w]}, {"op": "lint", "text": t, "md": false}]});
+        let mut a = WLinter::new(wdialect(d));
+        if guarded(|| a.import_words(vec![w.to_string()])).is_err() {
+            sess.fail("panic", format!("import_words([{:?}]) panicked", w), input(""), None);
+            continue;
+        }
+        let ex = a.export_words();
+        sess.o();
+        if ex != vec![w.to_string()] {
+            sess.fail("word-not-exported", format!("import_words([{:?}]) but export_words() = {:?}", w, ex), input(""), None);
+            continue;
+        }
+        let mut b = WLinter::new(wdialect(d));
+        b.import_words(ex);
+        for t in texts {
+            for md in [false, true] {
+                let (Ok(ra), Ok(rb)) = (guarded(|| a.lint(t.to_string(), lang(md))), guarded(|| b.lint(t.to_string(), lang(md)))) else {
+                    sess.count("w25:odd-word:lint-panic");
+                    continue;
+                };
+                let mut out = Outcome::default();
+                check_returned(&mut out, t, md, &ra);
+                for (class, desc) in out.fails {
+                    sess.fail(&class, desc, input(t), None);
+                }
+                sess.o();
+                if ra.len() != rb.len() || !ra.iter().zip(rb.iter()).all(|(x, y)| x.to_json() == y.to_json()) {
+                    sess.fail("export-import-differs", format!("custom word {:?}: lint({:?}) differs on a fresh linter that imported export_words()", w, t), input(t), None);
+                }
+                sess.count("w25:odd-word");
+            }
+        }
+    }
+}
+
+/// the w25 streams: templates and random sequences through `eval` (K + O), and `w25_direct` (O)
+fn w25_streams(sess: &mut Session, ctx: &Ctx, rng: &mut Rng, sents: &[String], threads: usize) {
+    let t_start = std::time::Instant::now();
+    let rules = w25_all_rules();
+    let thorough = ctx.tier == Tier::Thorough;
+    let mut seqs: Vec<(String, Vec<Call>, &'static str)> = vec![];
+    // every small-offset text × every shift, deterministically (the before-window boundary)
+    for (n, t) in W25_SMALL_OFFSET.iter().enumerate() {
+        let lint = |t: &str| Call::Lint { text: t.to_string(), md: false };
+        for (m, pre) in W25_SHIFT_PRE.iter().enumerate() {
+            if !thorough && (n + m) % 2 == 1 {
+                continue;
+            }
+            let calls = vec![lint(t), Call::Ignore { from: 0, lint: 0, text: None }, lint(&format!("{}{}", pre, t)), lint(t), Call::Ignore { from: 2, lint: 1, text: None }, lint(&format!("{}{}", pre, t)), lint(t)];
+            seqs.push((DIALECTS[(n + m) % 4].to_string(), calls, "w25-small-offset-shift"));
+        }
+    }
+    let ntempl = if thorough { 600 } else { 60 };
+    for i in 0..ntempl {
+        seqs.push((DIALECTS[rng.below(4)].to_string(), w25_templates(rng, sents, &rules, i), "w25-template"));
+    }
+    let nrand = if thorough { 600 } else { 50 };
+    for _ in 0..nrand {
+        let n = rng.range(3, 12);
+        seqs.push((DIALECTS[rng.below(4)].to_string(), w25_gen_seq(rng, sents, &rules, n), "w25-random"));
+    }
+    // long-lived linters: one object, many texts and calls
+    let nlong = if thorough { 20 } else { 2 };
+    for _ in 0..nlong {
+        let n = rng.range(30, 40);
+        seqs.push((DIALECTS[rng.below(4)].to_string(), w25_gen_seq(rng, sents, &rules, n), "w25-long-lived"));
+    }
+    let outs = par_map(seqs.len(), threads, |i| eval(&seqs[i].0, &seqs[i].1, seqs[i].2));
+    for ((d, calls, _), o) in seqs.iter().zip(outs) {
+        for c in calls {
+            if let Call::Lint { text, .. } = c {
+                let n = text.chars().count();
+                sess.count(&format!("w25:text-chars:{}", if n == 0 { "0" } else if n <= 400 { "1-400" } else if n <= 1500 { "401-1500" } else { ">1500" }));
+                if text.chars().any(|c| (c as u32) > 0xFFFF) {
+                    sess.count("w25:text-has-astral");
+                } else if !text.is_ascii() {
+                    sess.count("w25:text-has-non-ascii");
+                }
+                if text.contains('\r') {
+                    sess.count("w25:text-has-cr");
+                }
+            }
+            if let Call::ImportWords(ws) = c {
+                for w in ws {
+                    sess.count(if w.is_empty() { "w25:word:empty" } else if !w.is_ascii() { "w25:word:non-ascii" } else if w.contains('\'') { "w25:word:apostrophe" } else if w.contains(' ') { "w25:word:with-space" } else if w.len() > 40 { "w25:word:long" } else { "w25:word:plain" });
+                }
+            }
+            if let Call::SetConfig(es) = c {
+                if es.len() > 20 {
+                    sess.count("w25:set-config:whole");
+                }
+            }
+        }
+        merge(sess, d, calls, o);
+    }
+    sess.add("w25:wall-ms:sequences", t_start.elapsed().as_millis() as u64);
+    // the original objects and the remaining entry points, per family
+    let ndirect = if thorough { 300 } else { 40 };
+    for i in 0..ndirect {
+        let (t, md, fam) = w25_text(rng, sents, i);
+        w25_direct(sess, DIALECTS[i % 4], &t, md, fam);
+    }
+    for (i, t) in W25_ERR.iter().enumerate() {
+        w25_direct(sess, DIALECTS[i % 4], t, i % 2 == 1, "corpus");
+    }
+    sess.add("w25:wall-ms:sequences+direct", t_start.elapsed().as_millis() as u64);
+    w25_odd_words(sess);
+    w25_tie_order(sess, if thorough { 24 } else { 10 });
+    sess.add("w25:wall-ms", t_start.elapsed().as_millis() as u64);
+}
+
 pub fn run(ctx: &Ctx) {
     let mut sess = Session::new(ctx);
     let mut rng = Rng::new(ctx.seed);
     if let Some(v) = replay_input(ctx) {
         let dialect = v["dialect"].as_str().unwrap_or("American").to_string();
+        if v["w25"] == "tie" || v["w25"] == "odd-word" {
+            if v["w25"] == "tie" { w25_tie_order(&mut sess, 16) } else { w25_odd_words(&mut sess) }
+            sess.nontrivial("replay-a");
+            sess.nontrivial("replay-b");
+            sess.finish("replay of the custom-word witnesses", false, json!({}));
+            return;
+        }
+        if v["w25"] == "direct" {
+            w25_direct(&mut sess, &dialect, v["text"].as_str().unwrap_or(""), v["md"].as_bool().unwrap_or(false), "replay");
+            sess.nontrivial("replay-a");
+            sess.nontrivial("replay-b");
+            sess.finish("replay of one recorded text (original objects, neutral entry points)", false, json!({}));
+            return;
+        }
         let calls: Vec<Call> = v["calls"].as_array().map(|a| a.iter().filter_map(Call::from_json).collect()).unwrap_or_default();
         let o = eval(&dialect, &calls, "replay");
         merge(&mut sess, &dialect, &calls, o);
@@ -1275,6 +1900,9 @@ pub fn run(ctx: &Ctx) {
     }
 
     words_oracle(&mut sess, &mut rng);
+
+    // 4. w25: the families and entry points listed at `w25_streams`
+    w25_streams(&mut sess, ctx, &mut rng, &sents, threads);
 
     sess.finish(
         "corpus (case-only re-import of a custom word; an ignored lint whose window holds a word added later; texts whose raw lints overlap, each returned lint ignored in turn; twin contexts; quotes; config switches; a lint ignored in another text; a span outside the text); every sequence of ≤3 (quick) / ≤4 (thorough) calls over {lint, ignore lint 0, ignore lint 1, export, import, clear, import_words} between two lint calls, exhaustively; random sequences of 3–12 calls (lint in both languages, ignore, apply, export/import/clear ignored, import/export words, set/get config, stats) on all four dialects over rule-test sentences (1–3, mutated, non-words inserted, sentences with overlapping raw lints preferred). One K case = one whole sequence. Non-trivial = a lint call after an ignore where the reference returns more lints than remain and something remains, or an export→import check with a non-empty ignore list or custom words; distinct by (text, language, ignore-list size).",
